@@ -18,6 +18,18 @@ CHECKS = {
         design_ref='DESIGN.md §2 C08',
         note='Trusted: the reference formula transcribed from the statement; the combination "same type waived by name and numeric" is only range-checked (statement leaves it unspecified).',
         technique='Hypothesis generated inputs vs. reference formula + metamorphic consequences; exhaustive enumeration of a finite sub-domain'),
+    'C12': dict(
+        category='exploration',
+        text=('Model-based history testing: generated sequences of editing operations (single/bulk/implicit node addition, '
+              'removal, interaction add/replace/remove, copy, subgraph, merge_molecule, Block.to_molecule, MergeAllMolecules, '
+              'MergeChains) are applied to real Molecules in several slots and to a pure-Python model; every slot is compared with '
+              'its model after every step (so edits of copies that leak into the source are seen), the no-dangling-reference '
+              'invariant is asserted, and the merge post-condition (fresh keys, nothing overwritten, uniform resid/charge-group '
+              'shift) is checked from the returned correspondence. Histories are the quantifier, so stateful generation is the '
+              'right tool; it found and now guards the stale max_node defect (F1).'),
+        design_ref='DESIGN.md §2 C12',
+        note='Trusted: the pure-Python model of networkx node/edge semantics and of the documented Molecule operations. Bulk removal with one-shot iterators, self-merges and non-numeric keys are outside the generated domain.',
+        technique='Hypothesis model-based (stateful) operation-sequence generation vs. a reference model, invariant after every step'),
 }
 
 NOT_YET = 'check not built yet in this round (planned, see DESIGN.md §2)'
